@@ -73,7 +73,7 @@ PROP_ROOTS = {
     'C17': [r'objects\.DBusProperty\..*',
             r'objects\.DBusObject\.(_dbus_Property\w+|getAllProperties|'
             r'_getProperty|__init__)', r'interface\.Property\..*'],
-    'C18': [r'marshal\.validate\w+'],
+    'C18': [r'marshal\.validate\w+', r'message\.\w+\.__init__'],
     'C19': [r'marshal\.(genCompleteTypes|sigFromPy|marshal_variant|'
             r'unmarshal_variant|marshal|unmarshal)',
             r'interface\.(Method|Signal)\..*'],
@@ -82,4 +82,24 @@ PROP_ROOTS = {
             r'marshal\.(marshal_unix_fd|unmarshal_unix_fd|marshal|unmarshal)',
             r'message\.DBusMessage\._marshal', r'message\.parseMessage',
             r'client\.DBusClientConnection\.callRemote'],
+}
+
+
+# Of what is reachable from the entry points, the functions a property is
+# about (None = all).  C18 is about the validators and the constructors that
+# call them - not about the codec the constructors also run.
+def _c18_only(prog):
+    from . import callgraph as CG
+    vroots = [fi for q, fi in prog.all_funcs.items()
+              if fi.parent is None and fi.module.name == 'marshal' and
+              fi.name.startswith('validate')]
+    from_validators = set(CG.reachable(prog, vroots))
+    return lambda fi: fi.module.name == 'message' or \
+        fi.qualname in from_validators or (
+            fi.parent is not None and fi.parent.qualname in from_validators)
+
+
+# pid -> function(prog) -> predicate(FuncInfo)
+REACH_ONLY = {
+    'C18': _c18_only,
 }
